@@ -493,7 +493,7 @@ def run(ctx):
             box["e"] = e
     th = threading.Thread(target=judge_scale)
     th.start()
-    recs = pool.run_jobs(__name__, jobs, reuse=True, abort=True)
+    recs = pool.run_jobs(__name__, jobs, reuse=True, abort=True, strict_fp=True)
     verdicts = validate_parallel(ctx, recs)
     th.join()
     if "e" in box:
